@@ -57,6 +57,19 @@ fn run_line(line: &str) -> String {
 }
 
 fn main() {
+    // The requests are generated and run on a thread with a large stack: differentiation needs tens of
+    // kilobytes of stack per nesting level of the deep form (known finding D11, judged by the `stack`
+    // kind in child processes of their own with a 2 MiB stack); the other kinds must not die of it while
+    // probing candidate histories.
+    let h = std::thread::Builder::new().stack_size(1 << 30).spawn(real_main).unwrap();
+    let code = match h.join() {
+        Ok(()) => 0,
+        Err(_) => 101,
+    };
+    std::process::exit(code);
+}
+
+fn real_main() {
     std::panic::set_hook(Box::new(|_| {}));
     let args: Vec<String> = std::env::args().collect();
     let cmd = args.get(1).map(|s| s.as_str()).unwrap_or("");
@@ -112,8 +125,13 @@ fn main() {
                     if std::env::var("EXMEX_VERIF_DEBUG_GEN").is_ok() {
                         eprintln!("probe {} {}", i, line);
                     }
+                    // (the candidate is on disk before it is tried: if the process dies while probing, the
+                    // culprit is the candidate, not the last request written)
+                    let probe = |l: &str| std::fs::write(format!("{}.probe", prefix), l).unwrap();
+                    probe(&line);
                     while tries < 50 && run_line(&line).len() > 6000 {
                         line = k_hist::gen(&mut rng, tier, i, &mut stats, profile);
+                        probe(&line);
                         if std::env::var("EXMEX_VERIF_DEBUG_GEN").is_ok() {
                             eprintln!("probe {} {}", i, line);
                         }
